@@ -118,6 +118,8 @@ func c17Enumerate(tier string, seed int64, emit func(string, any)) {
 		progs = append(progs, t.Src+" + 1", "2 * "+t.Src)
 	}
 	progs = append(progs, "E", "Efoo", "ZZZ", "ZZZx + 1", "E + 1", "C", "CT", "C1", "C1T", "x.E", "[E]")
+	// process texts beyond the elision threshold (400 bytes per group)
+	progs = append(progs, "250d6", "250d6 + 250d6", "200d10 + 1", "120a9", "&w = 250d6; w + 1", "[250d6, 1]", "250d6k200")
 	// st edits whose value is not a number, a list of edits, a multiplier edit, a computed edit (the observer sees each)
 	for _, v := range []string{"1", "1.5", "'abc'", "null", "[1]", "xs", "xa", "xd", "xf", "1 ? 'abc' : 2", "0 || 'a'", "2d1"} {
 		progs = append(progs, "^stA-"+v, "^stA+"+v, "^stA-="+v, "^stA+="+v, "^stA:"+v, "^stA*2:"+v, "^st&A="+v, "^stA-"+v+" B+1", "^stA1 B-"+v)
@@ -130,6 +132,8 @@ func c17Enumerate(tier string, seed int64, emit func(string, any)) {
 	for _, t := range c17ActTemplates {
 		for _, o := range c17Operands {
 			emit("acting", c17Case{Kind: "acting", Tmpl: t.t, Op: o.text, Loop: t.loop, Src: strings.ReplaceAll(t.t, "@", o.text)})
+			// the same, with parsers registered BEFORE the acting ones that read ahead and decline without rewinding
+			emit("acting", c17Case{Kind: "acting", Tmpl: t.t, Op: o.text, Loop: t.loop, Src: strings.ReplaceAll(t.t, "@", o.text), Ext: 1})
 		}
 	}
 	c17MoreEnumerate(tier, emit)
@@ -216,6 +220,22 @@ func c17Run(raw json.RawMessage) harn.Result {
 		}
 		var log []call
 		var returned []*ds.VMValue
+		if c.Ext == 1 {
+			for k := 1; k <= 3; k++ {
+				k := k
+				_ = vm.RegCustomDiceParser(func(ctx *ds.Context, st *ds.CustomDiceStream) (*ds.CustomDiceParseResult, error) {
+					for i := 0; i < k; i++ {
+						st.Read()
+					}
+					if k == 2 {
+						return nil, nil
+					}
+					return &ds.CustomDiceParseResult{Matched: false}, nil
+				}, func(ctx *ds.Context, groups []string, payload any) (*ds.VMValue, string, error) {
+					return ds.NewIntVal(-1), "", nil
+				})
+			}
+		}
 		_ = vm.RegCustomDice(`E(\d+)`, func(ctx *ds.Context, groups []string, payload any) (*ds.VMValue, string, error) {
 			log = append(log, call{append([]string{}, groups...), payload})
 			n, _ := strconv.Atoi(groups[1])
